@@ -124,6 +124,27 @@ def _s_nest(v, full, tags):
     return c
 
 
+def s_multi(v):
+    """two Manifests in the top directory: Manifest references Manifest.files.gz, which
+    lists the data files (one of them symbolic / stale); update of the whole tree"""
+    c = Ctx()
+    c.full = False
+    fs = c.fs = ModelFS(written_sizes=[v.size('w1'), v.size('w2'), v.size('w3')])
+    (b_size, b_dig) = v.filetoken('b_size', 'b_dig')
+    fs.add_file('b', size=b_size, digest=b_dig)
+    fs.add_file('sub/c', size=1, digest='c')
+    second = [mk('DATA', 'b', 2, MD5=digest_for('MD5', 'B')),
+              mk('DATA', 'sub/c', 1, MD5=digest_for('MD5', 'c'))]
+    if v.bool('new_file'):
+        fs.add_file('n', size=1, digest='n')
+    fs.add_manifest('Manifest.files.gz', second, size=7, digest='F')
+    fs.add_manifest('Manifest', [mk('MANIFEST', 'Manifest.files.gz', 7,
+                                    MD5=digest_for('MD5', 'F'))])
+    c.hashes, c.sort, c.force = HSETS[0], False, v.bool('force')
+    c.upath = ''
+    return c
+
+
 def run_upd(c):
     w = tree.world(c)
     out = tree.run_update(w, 'Manifest', c.upath, c.hashes, c.sort, c.force)
@@ -198,6 +219,13 @@ def conditions(tier):
                    + ('sort, force, b present, z listed independent'
                       if full else 'sort=force one symbolic bit; b present; z listed')
                    + '; written sizes symbolic'))
+    for fx in partitions([('force', (False, True)), ('new_file', (False, True))]):
+        nm = f'multi_f{int(fx["force"])}n{int(fx["new_file"])}'
+        cs.append(make_cond(
+            nm, s_multi, run_upd, judge_upd, fx, timeout=400, group='M-multi', twin=False,
+            descr='update + save where the top-level Manifest references a second Manifest '
+                  'in the same directory that lists the files',
+            bounds='file b symbolic (stale or not), optional new file, force on/off'))
     parts = [('sub_state', range(5)), ('up', range(2)), ('c_kind', range(2)),
              ('ep_present', (False, True)), ('ec_present', (False, True))]
     if full:
